@@ -9,7 +9,7 @@ from pathlib import Path
 import z3
 
 from . import contracts as C
-from . import lib_np  # noqa: F401  (registers library models)
+from . import lib_fs, lib_np  # noqa: F401  (register library models)
 from . import solve
 from .engine import Contract, Exec, Obligation, Unsupported, Verifier
 from .source import INDEX
@@ -126,6 +126,25 @@ def verify_into(ctx, files: list[str], targets: list[str] | None = None, *, time
                 if results[oid].status == "unknown":
                     results[oid] = solve.Result(oid, "unsat", "z3", results[oid].time_s + r.time_s, "",
                                                 "proved from the quantifier-free hypotheses plus one quantified hypothesis")
+    # second relevance pass: quantifier-free hypotheses plus PAIRS of quantified ones
+    import itertools
+
+    sub_items = []
+    for oid, smt, _core in items:
+        if results[oid].status == "unknown":
+            o = index[oid]
+            core = [p for p in o.pc if not solve.has_forall(p)]
+            fas = [p for p in o.pc if solve.has_forall(p)]
+            if 2 <= len(fas) <= 24:
+                for (a, ha), (b, hb) in itertools.combinations(enumerate(fas), 2):
+                    sub_items.append((f"{oid}##{a}_{b}", solve.to_smt2(core + [ha, hb], o.goal)))
+    if sub_items:
+        for r in solve.discharge(sub_items, min(timeout_ms, 4000), seed()):
+            if r.status == "unsat":
+                oid = r.oid.split("##")[0]
+                if results[oid].status == "unknown":
+                    results[oid] = solve.Result(oid, "unsat", "z3", results[oid].time_s + r.time_s, "",
+                                                "proved from the quantifier-free hypotheses plus two quantified hypotheses")
     # still unknown: brute-force instantiation of the quantified hypotheses at the
     # ground terms of the goal (a proof if unsat)
     from . import refute
